@@ -172,7 +172,15 @@ class TgModel:
 
         def apply():
             i = self.names().index(old)
-            self.slots[i] = [new, ("renamed", self.slots[i][1])]
+            t = self.slots[i][1]
+            if isinstance(t, tuple):
+                t = t[1]
+            self.slots[i] = [new, ("renamed", t)]
+            # the renamed copy is re-added, so the span covers it (it only ever widens)
+            if self.lo is None or t.minTimestamp < self.lo:
+                self.lo = t.minTimestamp
+            if self.hi is None or t.maxTimestamp > self.hi:
+                self.hi = t.maxTimestamp
 
         return OK, apply
 
